@@ -282,7 +282,7 @@ def run(ctx):
             ctx.hit('shape')
         def opts_fn(i, r):
             return jsgen.Opts(clean=(i % 2 == 0), max_depth=6 + (i % 3), max_stmts=4, unicode_idents=(i % 5 == 1), string_continuations=(i % 3 == 0))
-        progs = work.Programs(ctx, ctx.pick(300, 7000), opts_fn=opts_fn,
+        progs = work.Programs(ctx, ctx.per_shard(300, 7000), opts_fn=opts_fn,
                               layouts=('space', 'random_comments', 'lines', 'tight'))
         for i, (text, meta) in enumerate(progs):
             if ctx.tier == 'thorough':
